@@ -1,2 +1,7 @@
 import MakoModel.Props.C09
-#print axioms MakoModel.C09.placeholder
+#print axioms MakoModel.C09.check_gives_names
+#print axioms MakoModel.C09.lookup_contained
+#print axioms MakoModel.C09.include_contained
+#print axioms MakoModel.C09.rejected_or_contained
+#print axioms MakoModel.C09.normpath_shape
+#print axioms MakoModel.C09.module_path_contained
